@@ -56,7 +56,8 @@ re-verified here: modelled as raising OptimizationError exactly when the status 
 
 fastcc(model, flux_threshold, zero_cutoff) - the SKELETON, PROVED for every model size (the two helpers applied by their proved
 contracts at the call sites; model.copy() / remove_reactions recorded as calls: C12 / C02 cover them):
-  * zero_cutoff is normalised first (ValueError below the tolerance, nothing else done).
+  * zero_cutoff is normalised first (ValueError below the tolerance, nothing else done); the first list holds the reactions of the
+    model that are not reversible (Reaction.reversibility is PROVED to be lb < 0 < ub and used as that term in the filter).
   * it works on the ARGUMENT model, never on a copy, and only inside contexts: every call of _find_sparse_mode, _flip_coefficients
     and model.optimize is made on the argument while the context stack is the entry stack plus ONE context of the function (side
     obligations at each call site); between two iterations of `while rxns_to_check`, at model.copy(), on return and when a solve
@@ -106,6 +107,7 @@ mutant is rejected (the named obligation comes back sat / unknown):
                       sol.fluxes.abs() > zero_cutoff -> sol.fluxes > zero_cutoff ... exit=return/post.10
                       rxns_to_keep.extend(new_rxns) -> .extend(rxns_to_check) ...... loop#0/inv-preserve
                       optimize(min) before _flip_coefficients ...................... exit=return/post
+  Reaction.reversibility   lb < 0 < ub -> lb <= 0 < ub ............................. exit=return#1/post (sat)
 """
 import copy
 import z3
@@ -803,13 +805,24 @@ def fcc_call_abstract(eng, st, f, pos, kw):
     return res
 
 
+def reversible(eng, st, r):
+    """lower bound < 0 < upper bound (extended reals)"""
+    lbk, lbv = eng.heap_arr(st, "_lower_bound")
+    ubk, ubv = eng.heap_arr(st, "_upper_bound")
+    zero = VReal(0, z3.RealVal(0))
+    return z3.And(xr_lt(VReal(lbk[r], lbv[r]), zero), xr_lt(zero, VReal(ubk[r], ubv[r])))
+
+
+# Reaction.reversibility (`return self._lower_bound < 0 < self._upper_bound`): PROVED to return exactly that term; inside the
+# comprehension filter of fastcc the proved result is used as a TERM (a chained comparison would fork the filter)
+REG.add(Contract(C1.M, "Reaction.reversibility@getter", "C19", [C1.RXN],
+                 [Case("any", ensures=lambda E: E.res.t == reversible(E.eng, E.s0, E["self"].t) if isinstance(E.res, VBool) else z3.BoolVal(False))],
+                 key="Reaction.reversibility@getter", result="bool"))
+
+
 def fcc_getattr(eng, st, v, name):
     if _is_fcc(eng) and isinstance(v, VRef) and v.cls == "Reaction" and name == "reversibility":
-        # Reaction.reversibility: `self._lower_bound < 0 < self._upper_bound`, as a term (usable in a comprehension filter)
-        lbk, lbv = eng.heap_arr(st, "_lower_bound")
-        ubk, ubv = eng.heap_arr(st, "_upper_bound")
-        zero = VReal(0, z3.RealVal(0))
-        return [("ok", st, VBool(z3.And(xr_lt(VReal(lbk[v.t], lbv[v.t]), zero), xr_lt(zero, VReal(ubk[v.t], ubv[v.t])))))]
+        return [("ok", st, VBool(reversible(eng, st, v.t)))]
     return None
 
 
